@@ -435,6 +435,22 @@ def cli_part(chk, scratch, n_pairs):
                 _w2.nested_gene_locus(w, "NE%d" % ci_, chrom_, last_, "+-"[(i + ci_) % 2])
                 _w2.two_cluster_gene(w, "TC%d" % ci_, chrom_, last_ + 12500, "+-"[(i + ci_ + 1) % 2])
                 chk.count("nested_gene_loci_in_reuse_worlds")
+        # reads that stick out of their gene: one with an extra exon upstream (left) of the gene, later ones running past its right end (the
+        # loader re-derives the reference window of a gene-info block from the reads it has loaded so far)
+        n_out_ = 0
+        for g_ in list(w.genes):
+            t_ = g_.transcripts[0] if g_.transcripts else None
+            if t_ is None or len(t_.exons) < 3 or n_out_ >= 4 or t_.exons[0][0] < 1500 or t_.exons[-1][1] + 900 > w.chrom_len(t_.chrom):
+                continue
+            if any(g2.chrom == g_.chrom and g2 is not g_ and not (g2.end < t_.exons[0][0] - 1200 or g2.start > t_.exons[-1][1] + 900) for g2 in w.genes):
+                continue
+            ex_ = list(t_.exons)
+            w.plant_sites(t_.chrom, (ex_[0][0] - 699, ex_[0][0] - 1), t_.strand)
+            tl_ = {"polya": 30} if t_.strand == "+" else {"polyt": 30, "flag": 16}
+            w.make_read(t_.chrom, [(ex_[0][0] - 900, ex_[0][0] - 700)] + ex_, truth={"src": t_.id, "class": "extra-exon-left-of-the-gene"}, **tl_)
+            for q_ in range(2):
+                w.make_read(t_.chrom, ex_[:-1] + [(ex_[-1][0], ex_[-1][1] + 300 + 200 * q_)], truth={"src": t_.id, "class": "runs-past-the-right-end"}, **tl_)
+            n_out_ += 1
         # reads with tags and groups
         for r in w.reads:
             r.tags = [("RG", "grp%d" % (hash(r.name) % 3))]
@@ -553,11 +569,29 @@ def cli_part(chk, scratch, n_pairs):
             quick = aio.QuickTmpFileAssignmentLoader(path)
             out = io.BytesIO()
             nrec = 0
+            block_span = None
             while full.has_next():
                 kind_is_gene = full.is_gene_info()
                 o1_ = full.get_object()
                 o2_ = quick.get_object()
                 nrec += 1
+                if kind_is_gene:
+                    block_span = None
+                elif o1_.exons:
+                    # the reference window of the gene-info block covers every read loaded from the block so far and holds that stretch of the FASTA
+                    block_span = (min(block_span[0], o1_.exons[0][0]), max(block_span[1], o1_.exons[-1][1])) if block_span else (o1_.exons[0][0], o1_.exons[-1][1])
+                    gi_ = o1_.gene_info
+                    chk.count("reference_windows_checked")
+                    if gi_.all_read_region_start > block_span[0] or gi_.all_read_region_end < block_span[1]:
+                        chk.violation("realfile:reference-window-does-not-cover-the-loaded-reads", "file %s record %d (read %s): window %d-%d, reads loaded from this block "
+                                      "span %d-%d" % (os.path.basename(path), nrec, o1_.read_id, gi_.all_read_region_start, gi_.all_read_region_end, block_span[0], block_span[1]), {"opts": opts})
+                        break
+                    if gi_.reference_region != str(fa[chrom][gi_.all_read_region_start - 1:gi_.all_read_region_end]):
+                        chk.violation("realfile:reference-window-holds-another-sequence", "file %s record %d (read %s): window %d-%d" %
+                                      (os.path.basename(path), nrec, o1_.read_id, gi_.all_read_region_start, gi_.all_read_region_end), {"opts": opts})
+                        break
+                    if block_span[0] < gi_.start or block_span[1] > gi_.end:
+                        chk.count("reference_windows_wider_than_the_gene")
                 if full.loader.tell() != quick.loader.tell():
                     chk.violation("realfile:quick-loader-misaligned", "file %s record %d" % (os.path.basename(path), nrec), None)
                     break
